@@ -54,8 +54,8 @@ def pLevel : P Level := do
 def pArg : P Arg := do
   match ← tok with
   | "S" => do
-    let e ← tok; let s ← pStr; let z ← pInt
-    return .sp ⟨e == "1", s, z⟩
+    let e ← tok; let s ← pStr; let z ← pInt; let tag ← pInt
+    return .sp ⟨e == "1", s, z, tag⟩
   | "I" => return .num (← pInt)
   | "C" => return .str (← pStr)
   | "T" => do let u ← pLevel; let l ← pLevel; return .tr u l
